@@ -84,6 +84,11 @@ def programs(tier, seed):
     yield ("nested2", T.nested_depth(2), e, True)
     inner = T.prog([T.fn("ib", ["x", "k"], ["y"], defaults={"k": ["dflt", "k"]}), T.fn("ic", ["y", "m"], ["z"])], name="inr", bind={"m": ["bound", "m"]})
     yield ("nested-bound-default", T.prog([T.gnode("inr", inner), T.fn("oc", ["z", "q"], ["w0"])]), e, True)
+    # a wrapper whose renames re-use a name freed by an earlier rename: exposed 'a' is the UNBOUND inner 'b', while the inner
+    # graph's own (bound) 'a' is exposed as 'cfg' - chained calls and the single-call form
+    for form, kw in (("chain", {"rename_in_chain": [{"a": "cfg"}, {"b": "a"}]}), ("batch", {"rename_in": {"a": "cfg", "b": "a"}}), ("chain-default", {"rename_in_chain": [{"d": "tmp"}, {"b": "d"}]})):
+        inner2 = T.prog([T.fn("ia", ["a", "b", "d"], ["y"], defaults={"d": ["dflt", "d"]})], name="inr2", bind={"a": ["bound", "a"]})
+        yield ("nested-rename-reuses-freed-name-" + form, T.prog([T.gnode("inr2", inner2, **kw), T.fn("sib", ["t"], ["s0"])]), e, True)
     sig = T.prog([T.fn("save", ["record"], ["saved"], emit=["flushed"]), T.fn("summ", ["title"], ["report"], wait_for=["flushed"]), T.fn("oth", ["title", "extra"], ["o0"])])
     yield ("signals", sig, e, True)
     sig2 = T.prog([T.fn("consume", ["mid", "cfg"], ["c0"]), T.fn("produce", ["start", "cfg"], ["mid"])])
